@@ -181,7 +181,7 @@ def _valid_ops(rng: random.Random, st: dict, ucodes, fresh: bool):
             pool = ucodes
             if kind == 'fromarray':     # a numpy array is homogeneous: one class of values only
                 strs = [c for c in ucodes if isinstance(Codec(len(ucodes)).values[c], str)]
-                pool = strs if rng.random() < 0.5 else [c for c in ucodes if c not in strs]
+                pool = strs if rng.random() < 0.5 else [c for c in ucodes if c not in strs and Codec(len(ucodes)).values[c] is not None]
             k = rng.randint(1, len(pool))
             lst = rng.sample(pool, k)
             return kind, [lst]
@@ -213,7 +213,9 @@ def _valid_ops(rng: random.Random, st: dict, ucodes, fresh: bool):
         return 'fromdict', [keys, _pairs({k: dd[k] for k in keys})]
     cands = []
     if len(order) >= 1:
-        cands += ['group', 'remove', 'pop', 'sort', 'sort_by', 'replace_group_leader', 'copy']
+        cands += ['group', 'remove', 'pop', 'sort_by', 'replace_group_leader', 'copy']
+        if 8 not in order or len(ucodes) != 8:          # None cannot be sorted with numbers
+            cands += ['sort']
     if len(order) >= 2:
         cands += ['group', 'group', 'group_list', 'sort_by']
     if free:
